@@ -51,15 +51,18 @@ Fixpoint ends_with_bslash (s : bytes) : bool :=
   match s with [] => false | [c] => c =? BSLASH | _ :: r => ends_with_bslash r end.
 Fixpoint drop_last (s : bytes) : bytes := match s with [] => [] | [_] => [] | c :: r => c :: drop_last r end.
 
-(* reTextAfterFirstOptionInclusive (?:--hash|--global-option|--config-settings|-C).* replaced by "" *)
+(* reTextAfterFirstOptionInclusive (?:^|\s)(?:--hash|--global-option|--config-settings|-C).* replaced by "" *)
 Definition s_hash : bytes := [45;45;104;97;115;104].
 Definition s_global_option : bytes := [45;45;103;108;111;98;97;108;45;111;112;116;105;111;110].
 Definition s_config_settings : bytes := [45;45;99;111;110;102;105;103;45;115;101;116;116;105;110;103;115].
 Definition s_dashC : bytes := [45;67].
 Definition option_here (s : bytes) : bool :=
   has_prefix s_hash s || has_prefix s_global_option s || has_prefix s_config_settings s || has_prefix s_dashC s.
-Fixpoint cut_options (s : bytes) : bytes :=
-  match s with [] => [] | c :: r => if option_here s then [] else c :: cut_options r end.
+(* the pattern is (?:^|\s)(?:--hash|...|-C).* : an option marker counts only at the start of the line or directly
+   after a white-space byte, and the cut starts at that white-space byte *)
+Fixpoint cut_opt_ws (s : bytes) : bytes :=
+  match s with [] => [] | c :: r => if re_space c && option_here r then [] else c :: cut_opt_ws r end.
+Definition cut_options (s : bytes) : bytes := if option_here s then [] else cut_opt_ws s.
 
 (* reWhitespace [ \t\r] removed *)
 Definition rw_space (c : N) : bool := (c =? 32) || (c =? 9) || (c =? 13).
@@ -256,16 +259,8 @@ Definition wf_rq_layout (rs : list rq_rec) (l : rq_layout) : bool :=
   last_line_ok (rq_file_lines rs l) (ry_final_nl l).
 
 (* the domain D on which the extractor is exact: names the extractor's own name pattern accepts (at least
-   two characters, no '.'), and no requirement line that contains one of the per-requirement option
-   markers (--hash, --global-option, --config-settings, -C) anywhere - e.g. inside "Flask-Caching" *)
-Fixpoint no_option_marker (s : bytes) : bool :=
-  match s with [] => true | _ :: r => negb (option_here s) && no_option_marker r end.
-Fixpoint rq_lines_in_D (rs : list rq_rec) (ys : list rq_rlay) : bool :=
-  match rs with
-  | [] => true
-  | r :: rs' => valid_pkg (rq_name r) && no_option_marker (rq_line r (hd rq_rlay_default ys)) && rq_lines_in_D rs' (tl ys)
-  end.
-Definition rq_in_D (rs : list rq_rec) (l : rq_layout) : bool := rq_lines_in_D rs (ry_recs l).
+   two characters, no '.') *)
+Definition rq_in_D (rs : list rq_rec) (l : rq_layout) : bool := forallb (fun r => valid_pkg (rq_name r)) rs.
 
 (* ------------------------------------------------------------------ correspondence record *)
 Record requirements_case := {
